@@ -13,7 +13,7 @@ R11d  the key hash is carried unchanged: as_data_submessage / as_data_frag_subme
       try_from_data_submessage takes exactly the 16 bytes of PID_KEY_HASH
 """
 from vplib import expr as E
-from rules.common import FnCtx, adder
+from rules.common import FnCtx, adder, leaf_defs
 
 TECHNIQUE = "who-computes rule over resolved calls and definitions, guard dominance in the key-holder walks, sibling condition agreement"
 ASSUMPTIONS = ["the XCDR serializer is injective on key holder values (C09)"]
@@ -88,9 +88,8 @@ def run(ctx, rep):
                 # through Into::into
                 if a[0] == "call" and a[1].endswith("Into::into") and a[2]:
                     src = E.strip_casts(a[2][0])
-                if src[0] == "local" and not src[2]:
-                    ds = fc.mir.whole_defs(src[1])
-                    exprs = [E.strip_casts(fc._def_expr(d)) for d in ds]
+                if src[0] == "local":
+                    exprs = leaf_defs(fc, src)
                     if exprs and any(E.mentions_call(x, "get_instance_handle_from_dynamic_data") or E.mentions_field(x, "instance_handle") for x in exprs):
                         ok = all(E.mentions_call(x, "get_instance_handle_from_dynamic_data") or (E.mentions_call(x, "InstanceHandle::new") and E.mentions_field(x, "instance_handle")) for x in exprs)
                         detail = "; ".join(fc.show(x)[:80] for x in exprs)
